@@ -926,17 +926,6 @@ func (this *encodingTask) encode(res *encodingTaskResult) {
 		evt := kanzi.NewEvent(kanzi.EVT_AFTER_ENTROPY, int(this.currentBlockID),
 			int64((written+7)>>3), checksum, hashType, time.Now())
 		notifyListeners(this.listeners, evt)
-
-		if v, hasKey := this.ctx["verbosity"]; hasKey {
-			blockOffset := this.obs.Written()
-
-			if v.(uint) > 4 {
-				msg := fmt.Sprintf("{ \"type\":\"%s\", \"id\":%d, \"offset\":%d, \"skipFlags\":%.8b }",
-					"BLOCK_INFO", int(this.currentBlockID), blockOffset, skipFlags)
-				evt1 := kanzi.NewEventFromString(kanzi.EVT_BLOCK_INFO, int(this.currentBlockID), msg, time.Now())
-				notifyListeners(this.listeners, evt1)
-			}
-		}
 	}
 
 	// Lock free synchronization
@@ -953,6 +942,21 @@ func (this *encodingTask) encode(res *encodingTaskResult) {
 
 		if n&0x1F == 0 {
 			runtime.Gosched()
+		}
+	}
+
+	if len(this.listeners) > 0 {
+		if v, hasKey := this.ctx["verbosity"]; hasKey {
+			// The shared bitstream may only be accessed (even read) by the
+			// task holding the block id: query the offset here, not before
+			blockOffset := this.obs.Written()
+
+			if v.(uint) > 4 {
+				msg := fmt.Sprintf("{ \"type\":\"%s\", \"id\":%d, \"offset\":%d, \"skipFlags\":%.8b }",
+					"BLOCK_INFO", int(this.currentBlockID), blockOffset, skipFlags)
+				evt1 := kanzi.NewEventFromString(kanzi.EVT_BLOCK_INFO, int(this.currentBlockID), msg, time.Now())
+				notifyListeners(this.listeners, evt1)
+			}
 		}
 	}
 
